@@ -204,67 +204,98 @@ end ArrF
 
 namespace ArrF
 
-/-- On a homogeneous list `Less` is the strict part of a total preorder of sort keys. -/
+/-- On a homogeneous list `Less` is the strict part of a total *order* of sort keys, and the
+canonical key text of the `sortc` line is a function of that key. -/
 theorem homog_keyOrder (ks : List GoVal) (h : homog ks = true) (hw : ∀ x ∈ ks, IntWF x) :
-    ∃ (κ : Type) (key : GoVal → κ) (kle : κ → κ → Prop),
+    ∃ (κ : Type) (key : GoVal → κ) (kle : κ → κ → Prop) (shw : κ → String),
       (∀ a b c, kle a b → kle b c → kle a c) ∧ (∀ a b, kle a b ∨ kle b a) ∧
-      ∀ a ∈ ks, ∀ b ∈ ks, (lessB a b = true ↔ ¬ kle (key b) (key a)) := by
+      (∀ a b, kle a b → kle b a → a = b) ∧
+      (∀ a ∈ ks, ∀ b ∈ ks, (lessB a b = true ↔ ¬ kle (key b) (key a))) ∧
+      (∀ a ∈ ks, canonKey a = shw (key a)) := by
   simp only [homog, Bool.or_eq_true, List.all_eq_true] at h
   rcases h with ((((hi | hn) | hs) | hb) | hnil) | ho
   · -- all integers
-    refine ⟨Int, intKey, (· ≤ ·), fun a b c => Int.le_trans, fun a b => Int.le_total a b, ?_⟩
-    intro a ha b hb
-    obtain ⟨k, n, ea⟩ := kclass_int (by simpa [isClass] using hi a ha)
-    obtain ⟨k', m, eb⟩ := kclass_int (by simpa [isClass] using hi b hb)
-    have wa : Cmp.intOK k n := by have := hw a ha; simpa [IntWF, ea] using this
-    have wb : Cmp.intOK k' m := by have := hw b hb; simpa [IntWF, eb] using this
-    rw [lessB_int ea eb wa wb]
-    simp [intKey, ea, eb]
-  · -- numbers, integers inside ±2^53
-    refine ⟨Rat, numKey, (· ≤ ·), rat_le_trans, rat_le_total, ?_⟩
-    intro a ha b hb
-    rcases smallNum_cases (hn a ha) with ⟨k, n, ea, sa⟩ | ⟨k, q, ea⟩ <;>
-      rcases smallNum_cases (hn b hb) with ⟨k', m, eb, sb⟩ | ⟨k', r, eb⟩
-    · have wa : Cmp.intOK k n := by have := hw a ha; simpa [IntWF, ea] using this
+    refine ⟨Int, intKey, (· ≤ ·), (fun n => ratText n 1), fun a b c => Int.le_trans, fun a b => Int.le_total a b,
+      fun a b => Int.le_antisymm, ?_, ?_⟩
+    · intro a ha b hb
+      obtain ⟨k, n, ea⟩ := kclass_int (by simpa [isClass] using hi a ha)
+      obtain ⟨k', m, eb⟩ := kclass_int (by simpa [isClass] using hi b hb)
+      have wa : Cmp.intOK k n := by have := hw a ha; simpa [IntWF, ea] using this
       have wb : Cmp.intOK k' m := by have := hw b hb; simpa [IntWF, eb] using this
       rw [lessB_int ea eb wa wb]
-      simp [numKey, ea, eb, Rat.not_le, Rat.intCast_lt_intCast]
-    · rw [lessB_int_flt ea eb sa]
-      simp [numKey, ea, eb, Rat.not_le]
-    · rw [lessB_flt_int ea eb sb]
-      simp [numKey, ea, eb, Rat.not_le]
-    · rw [lessB_flt ea eb]
-      simp [numKey, ea, eb, Rat.not_le]
+      simp [intKey, ea, eb]
+    · intro a ha
+      obtain ⟨k, n, ea⟩ := kclass_int (by simpa [isClass] using hi a ha)
+      simp [canonKey, intKey, ea]
+  · -- numbers, integers inside ±2^53
+    refine ⟨Rat, numKey, (· ≤ ·), (fun q => ratText q.num q.den), rat_le_trans, rat_le_total,
+      fun a b => Rat.le_antisymm, ?_, ?_⟩
+    · intro a ha b hb
+      rcases smallNum_cases (hn a ha) with ⟨k, n, ea, sa⟩ | ⟨k, q, ea⟩ <;>
+        rcases smallNum_cases (hn b hb) with ⟨k', m, eb, sb⟩ | ⟨k', r, eb⟩
+      · have wa : Cmp.intOK k n := by have := hw a ha; simpa [IntWF, ea] using this
+        have wb : Cmp.intOK k' m := by have := hw b hb; simpa [IntWF, eb] using this
+        rw [lessB_int ea eb wa wb]
+        simp [numKey, ea, eb, Rat.not_le, Rat.intCast_lt_intCast]
+      · rw [lessB_int_flt ea eb sa]
+        simp [numKey, ea, eb, Rat.not_le]
+      · rw [lessB_flt_int ea eb sb]
+        simp [numKey, ea, eb, Rat.not_le]
+      · rw [lessB_flt ea eb]
+        simp [numKey, ea, eb, Rat.not_le]
+    · intro a ha
+      rcases smallNum_cases (hn a ha) with ⟨k, n, ea, _⟩ | ⟨k, q, ea⟩
+      · simp [canonKey, numKey, ea]
+      · simp [canonKey, numKey, ea]
   · -- all strings
-    refine ⟨Bytes, strKey, (· ≤ ·), bytes_le_trans, bytes_le_total, ?_⟩
-    intro a ha b hb
-    obtain ⟨s, ea⟩ := kclass_str (by simpa [isClass] using hs a ha)
-    obtain ⟨t, eb⟩ := kclass_str (by simpa [isClass] using hs b hb)
-    rw [lessB_str ea eb]
-    simp [strKey, ea, eb, List.not_le]
+    refine ⟨Bytes, strKey, (· ≤ ·), (fun s => "s" ++ hexEncode s), bytes_le_trans, bytes_le_total,
+      fun a b => List.le_antisymm, ?_, ?_⟩
+    · intro a ha b hb
+      obtain ⟨s, ea⟩ := kclass_str (by simpa [isClass] using hs a ha)
+      obtain ⟨t, eb⟩ := kclass_str (by simpa [isClass] using hs b hb)
+      rw [lessB_str ea eb]
+      simp [strKey, ea, eb, List.not_le]
+    · intro a ha
+      obtain ⟨s, ea⟩ := kclass_str (by simpa [isClass] using hs a ha)
+      simp [canonKey, strKey, ea]
   · -- all booleans
-    refine ⟨Bool, boolKey, (fun x y => x = true → y = true), fun a b c h1 h2 h => h2 (h1 h), ?_, ?_⟩
+    refine ⟨Bool, boolKey, (fun x y => x = true → y = true), (fun b => if b then "t" else "f"),
+      fun a b c h1 h2 h => h2 (h1 h), ?_, ?_, ?_, ?_⟩
+    · intro a b; cases a <;> cases b <;> simp
     · intro a b; cases a <;> cases b <;> simp
     · intro a ha b hb'
       obtain ⟨x, ea⟩ := kclass_bool (by simpa [isClass] using hb a ha)
       obtain ⟨y, eb⟩ := kclass_bool (by simpa [isClass] using hb b hb')
       rw [lessB_bool ea eb]
       cases x <;> cases y <;> simp [boolKey, ea, eb]
+    · intro a ha
+      obtain ⟨x, ea⟩ := kclass_bool (by simpa [isClass] using hb a ha)
+      cases x <;> simp [canonKey, boolKey, ea]
   · -- all nil
-    refine ⟨Unit, fun _ => (), fun _ _ => True, fun _ _ _ _ _ => trivial, fun _ _ => Or.inl trivial, ?_⟩
-    intro a ha b _
-    have := kclass_nil (by simpa [isClass] using hnil a ha)
-    simp [lessB_nil_left this]
+    refine ⟨Unit, fun _ => (), fun _ _ => True, (fun _ => "n"), fun _ _ _ _ _ => trivial, fun _ _ => Or.inl trivial,
+      fun _ _ _ _ => rfl, ?_, ?_⟩
+    · intro a ha b _
+      have := kclass_nil (by simpa [isClass] using hnil a ha)
+      simp [lessB_nil_left this]
+    · intro a ha
+      have := kclass_nil (by simpa [isClass] using hnil a ha)
+      simp [canonKey, this]
   · -- all unordered values
-    refine ⟨Unit, fun _ => (), fun _ _ => True, fun _ _ _ _ _ => trivial, fun _ _ => Or.inl trivial, ?_⟩
-    intro a ha b _
-    have : kclass a = .other := by simpa [isClass] using ho a ha
-    simp [lessB_other_left this]
+    refine ⟨Unit, fun _ => (), fun _ _ => True, (fun _ => "?"), fun _ _ _ _ _ => trivial, fun _ _ => Or.inl trivial,
+      fun _ _ _ _ => rfl, ?_, ?_⟩
+    · intro a ha b _
+      have : kclass a = .other := by simpa [isClass] using ho a ha
+      simp [lessB_other_left this]
+    · intro a ha
+      have hk : kclass a = .other := by simpa [isClass] using ho a ha
+      unfold kclass at hk
+      unfold canonKey
+      cases ht : toLiq a <;> simp_all
 
 /-- `sort` without a key: sorted with respect to `Less` on every homogeneous array -/
 theorem sortF_sorted (xs : List GoVal) (h : homog xs = true) (hw : ∀ x ∈ xs, IntWF x) :
     (sortF xs).Pairwise (fun a b => lessB b a = false) := by
-  obtain ⟨κ, key, kle, tr, to, spec⟩ := homog_keyOrder xs h hw
+  obtain ⟨κ, key, kle, _, tr, to, _, spec, _⟩ := homog_keyOrder xs h hw
   exact sorted_of_key lessB key kle tr to xs spec
 
 theorem mem_keys_of_nonNil {key : Bytes} {xs : List GoVal} {x : GoVal} (hx : x ∈ xs)
@@ -282,7 +313,7 @@ theorem sortByF_sorted (key : Bytes) (xs : List GoVal) (h : homogBy key xs = tru
     simp only [List.mem_filter, List.mem_map] at hk
     obtain ⟨⟨x, hx, rfl⟩, _⟩ := hk
     exact hw x hx
-  obtain ⟨κ, kf, kle, tr, to, spec⟩ := homog_keyOrder _ h hw'
+  obtain ⟨κ, kf, kle, _, tr, to, _, spec, _⟩ := homog_keyOrder _ h hw'
   let okey : GoVal → Option κ := fun x => if (keyIndex key x).isNil then none else some (kf (keyIndex key x))
   refine sorted_of_key (lessByKey key) okey (optLe kle) (optLe_trans tr) (optLe_total to) xs ?_
   intro a ha b hb
